@@ -35,13 +35,14 @@ pub struct Case {
 pub const POSITIONS: [&str; 10] = ["struct", "field", "unit-enum", "unit-variant", "tagged-enum", "tagged-variant", "variant-field", "alias", "inline-newtype", "redacted-struct"];
 
 /// terminator-class hazards: at most one kind per doc string (so that signatures name one cause)
-const HAZARDS: [(&str, &str); 10] = [("quote-run", "\"\"\"\""), ("quote-run", "\"\"\"\"\""), ("carriage-return", "\r"), ("newline", "\n"), ("block-end", "*/"), ("triple-dquote", "\"\"\""), ("backslash", "\\"), ("trailing-backslash", "\\"), ("newline-crlf", "\r\n"), ("newline-mixed", "\r\n")];
+const HAZARDS: [(&str, &str); 11] = [("cr-and-lf", "\r"), ("quote-run", "\"\"\"\""), ("quote-run", "\"\"\"\"\""), ("carriage-return", "\r"), ("newline", "\n"), ("block-end", "*/"), ("triple-dquote", "\"\"\""), ("backslash", "\\"), ("trailing-backslash", "\\"), ("newline-crlf", "\r\n"), ("newline-mixed", "\r\n")];
 const BENIGN: [&str; 10] = ["plain words", "//", "#", "`", "\"", "'''", "/*", "x = 1;", "}", "<T>"];
 
 fn hazard_of(d: &DocSpec) -> &'static str {
     let last = d.pieces.last().map(|s| s.as_str()).unwrap_or("");
     if d.pieces.iter().any(|p| p.replace("\r\n", "").contains('\r')) {
-        return "carriage-return";
+        // a lone CR and, elsewhere in the same string, a LF
+        return if d.pieces.iter().any(|p| p.replace("\r\n", "").contains('\n')) { "cr-and-lf" } else { "carriage-return" };
     }
     let crlf = d.pieces.iter().any(|p| p.contains("\r\n"));
     let bare_lf = d.pieces.iter().any(|p| p.replace("\r\n", "").contains('\n'));
@@ -105,9 +106,9 @@ fn doc_strategy() -> BoxedStrategy<DocSpec> {
                 let (name, text) = HAZARDS[h];
                 // respect the source syntax: `///` cannot hold a newline, `/** */` cannot hold `*/` (and nests `/*`)
                 let ok = match form {
-                    DocForm::Line => !name.starts_with("newline") && name != "carriage-return",
+                    DocForm::Line => !name.starts_with("newline") && name != "carriage-return" && name != "cr-and-lf",
                     // a carriage return cannot be written inside a doc comment (rustc rejects a bare CR there)
-                    DocForm::Block => name != "block-end" && name != "newline-crlf" && name != "newline-mixed" && name != "carriage-return",
+                    DocForm::Block => name != "block-end" && name != "newline-crlf" && name != "newline-mixed" && name != "carriage-return" && name != "cr-and-lf",
                     DocForm::Attr => true,
                 };
                 if ok {
@@ -116,6 +117,15 @@ fn doc_strategy() -> BoxedStrategy<DocSpec> {
                     } else {
                         let at = at.min(pieces.len());
                         pieces.insert(at, text.to_string());
+                        if name == "cr-and-lf" {
+                            // the LF after the CR, or before it
+                            if at % 2 == 0 {
+                                pieces.push("\n".to_string());
+                            } else {
+                                pieces.insert(0, "\n".to_string());
+                            }
+                            pieces.push("tail".into());
+                        }
                         if name == "newline-mixed" {
                             // one doc string with both kinds of line break, in either order
                             if at % 2 == 0 {
@@ -342,7 +352,7 @@ impl SubCheck for C15 {
 
 pub fn run(run: &Run) {
     ts::install_panic_hook();
-    run.set_rule("a fixed program with every documentable position (struct, field, unit enum, unit variant, tagged enum, tagged variant, struct-variant field, alias); each position gets 0-3 doc strings written as ///, /** */ or #[doc = \"..\"], built from benign pieces {words, //, #, back-tick, double quote, ''', /*, code-like text} plus at most one terminator-class hazard kind {newline, CRLF, CRLF and LF mixed in one string, a lone carriage return, */, \"\"\", runs of 4 and 5 double quotes, backslash, trailing backslash}; a unique sentinel follows every piece; a non-doc attribute (allow / doc(hidden)) is written between or before the doc lines of some positions. Oracle: every sentinel occurrence in the output lies inside a comment token of the target language (Python: comment token or expression-statement string, judged by CPython) and the file still tokenises; every sentinel is reproduced. Non-trivial = doc string carries a hazard; distinct by (position, doc string).");
+    run.set_rule("a fixed program with every documentable position (struct, field, unit enum, unit variant, tagged enum, tagged variant, struct-variant field, alias); each position gets 0-3 doc strings written as ///, /** */ or #[doc = \"..\"], built from benign pieces {words, //, #, back-tick, double quote, ''', /*, code-like text} plus at most one terminator-class hazard kind {newline, CRLF, CRLF and LF mixed in one string, a lone carriage return, a lone carriage return plus a line feed elsewhere in the string, */, \"\"\", runs of 4 and 5 double quotes, backslash, trailing backslash}; a unique sentinel follows every piece; a non-doc attribute (allow / doc(hidden)) is written between or before the doc lines of some positions. Oracle: every sentinel occurrence in the output lies inside a comment token of the target language (Python: comment token or expression-statement string, judged by CPython) and the file still tokenises; every sentinel is reproduced. Non-trivial = doc string carries a hazard; distinct by (position, doc string).");
     run.assume("comment/string boundaries are decided by the harness tokeniser for TS/Kotlin/Swift/Scala/Go (language lexical rules incl. nested block comments) and by CPython's tokenize/ast for Python");
     replay_regress(run, &C15);
     search(run, &C15, run.tier.pick(3000, 100_000));    if run.tier == Tier::Thorough {
